@@ -271,3 +271,15 @@ ENGINES["map_map_map_mv"] = {
     "configs": {"quick": [mapcfg("map_map_map_mv_q.cfg", 1, 1)], "thorough": [mapcfg("map_map_map_mv_q.cfg", 1, 1)]},
     "traces": {"quick": [], "thorough": []},
 }
+
+
+# ---- implementation traces for the simple types ----------------------------------------------------------
+def _str(kind, hist):
+    return tr(kind, "trace_simple_%s.cfg" % kind, "Trace_Simple.tla", "--kind", kind, "--n", 4, "--histories", hist, "--steps", 50, "--maxops", 10, "--regime", "any", "--merge", "--snap")
+
+
+ENGINES["simple"]["traces"] = {
+    "quick": [_str(k, 15) for k in ("pncounter", "lww", "min")],
+    "thorough": [_str(k, 80) for k in ("gcounter", "pncounter", "lww", "max", "min", "gset")],
+}
+ENGINES["simple"]["trace_props"] = {"read": ["C11", "C01", "C03", "C08"], "canon": ["C11", "C09"]}
